@@ -1,0 +1,28 @@
+//go:build verif
+
+// Contracts for package node, read by the govc verifier in /verif (comment-only).
+
+package node
+
+//@ import "github.com/mosaicnetworks/babble/src/common"
+//@ import "github.com/mosaicnetworks/babble/src/peers"
+//@ import hg "github.com/mosaicnetworks/babble/src/hashgraph"
+
+// ------------------------------------------------------------------------------------------------
+// Fast-forward (C12, C14, C10)
+
+//@ func (c *core) fastForward(block *hg.Block, frame *hg.Frame) error
+//@   requires c != nil && c.hg != nil && c.validator != nil && block != nil && frame != nil && len(frame.Peers) < 2147483648
+//@   requires forall i int :: 0 <= i && i < len(frame.Peers) ==> peers.PeerOK(frame.Peers[i])
+//@   requires forall r int :: __in(r, frame.PeerSets) ==> len(frame.PeerSets[r]) < 2147483648 && (forall i int :: 0 <= i && i < len(frame.PeerSets[r]) ==> peers.PeerOK(frame.PeerSets[r][i]))
+//@   ensures[accept-peers-hash]  ret0 == nil ==> __seqeq(peers.PSHashOf(old(frame.Peers)), old(block.Body.PeersHash))
+//@   ensures[accept-frame-hash]  ret0 == nil ==> __seqeq(old(hg.FrameHashOf(*frame)), old(block.Body.FrameHash))
+//@   ensures[accept-signatures]  ret0 == nil ==> (exists ps *peers.PeerSet :: ps != nil && __eq(old(ps.Peers), old(frame.Peers)) && old(ps.WF()) && old(hg.SignedByMoreThanThird(block, ps)))
+//@   ensures[refused-untouched]  ret0 != nil && !__called("Reset") ==> __unchanged(c.validators, c.peers, c.peerSelector, c.head, c.seq, c.hg)
+//@   ensures[refused-untouched-hg]  ret0 != nil && !__called("Reset") ==> __eq(c.hg.Snapshot(), old(c.hg.Snapshot()))
+
+//@ func newRandomPeerSelector(peerSet *peers.PeerSet, selfID uint32) *randomPeerSelector
+//@   trusted not verified (peer selection for gossip is outside every property); only its frame is used
+//@   requires peerSet != nil
+//@   modifies nothing
+//@   ensures[nonnil] ret0 != nil
